@@ -210,6 +210,9 @@ Definition default_QueryOptions : QueryOptions :=       (* &QueryOptions{} *)
      qo_PageSize := 0; qo_PageSizeInBytes := false; qo_PagingState := None; qo_SerialConsistency := None;
      qo_DefaultTimestamp := None; qo_Keyspace := []; qo_NowInSeconds := None; qo_ContinuousPagingOptions := None |}.
 
+(* Go:  if cond { flags = flags.Add(flag) }  *)
+Definition flag_if (cond : bool) (flags flag : Z) : Z := if cond then QueryFlag_Add flags flag else flags.
+
 Definition QueryOptions_Flags (o : QueryOptions) : Z :=
   let flags := 0 in
   let flags := match qo_PositionalValues o with                      (* prefer positional values, ignore named ones *)
@@ -219,17 +222,16 @@ Definition QueryOptions_Flags (o : QueryOptions) : Z :=
                          | None => flags
                          end
                end in
-  let flags := if qo_SkipMetadata o then QueryFlag_Add flags QueryFlagSkipMetadata else flags in
+  let flags := flag_if (qo_SkipMetadata o) flags QueryFlagSkipMetadata in
   let flags := if Z.gtb (qo_PageSize o) 0 then
-                 let flags := QueryFlag_Add flags QueryFlagPageSize in
-                 if qo_PageSizeInBytes o then QueryFlag_Add flags QueryFlagDsePageSizeBytes else flags
+                 flag_if (qo_PageSizeInBytes o) (QueryFlag_Add flags QueryFlagPageSize) QueryFlagDsePageSizeBytes
                else flags in
-  let flags := if is_some (qo_PagingState o) then QueryFlag_Add flags QueryFlagPagingState else flags in
-  let flags := if is_some (qo_SerialConsistency o) then QueryFlag_Add flags QueryFlagSerialConsistency else flags in
-  let flags := if is_some (qo_DefaultTimestamp o) then QueryFlag_Add flags QueryFlagDefaultTimestamp else flags in
-  let flags := if nonempty (qo_Keyspace o) then QueryFlag_Add flags QueryFlagWithKeyspace else flags in
-  let flags := if is_some (qo_NowInSeconds o) then QueryFlag_Add flags QueryFlagNowInSeconds else flags in
-  let flags := if is_some (qo_ContinuousPagingOptions o) then QueryFlag_Add flags QueryFlagDseWithContinuousPagingOptions else flags in
+  let flags := flag_if (is_some (qo_PagingState o)) flags QueryFlagPagingState in
+  let flags := flag_if (is_some (qo_SerialConsistency o)) flags QueryFlagSerialConsistency in
+  let flags := flag_if (is_some (qo_DefaultTimestamp o)) flags QueryFlagDefaultTimestamp in
+  let flags := flag_if (nonempty (qo_Keyspace o)) flags QueryFlagWithKeyspace in
+  let flags := flag_if (is_some (qo_NowInSeconds o)) flags QueryFlagNowInSeconds in
+  let flags := flag_if (is_some (qo_ContinuousPagingOptions o)) flags QueryFlagDseWithContinuousPagingOptions in
   flags.
 
 (* the flags word: [int] from v5 (int32(flags)), [byte] before (uint8(flags), truncating) *)
@@ -459,10 +461,10 @@ Definition norm_Execute (version : Z) (m : Execute) : Execute :=
 (* ================= BATCH (batch.go) ================= *)
 Definition Batch_Flags (m : Batch) : Z :=
   let flags := 0 in
-  let flags := if is_some (b_SerialConsistency m) then QueryFlag_Add flags QueryFlagSerialConsistency else flags in
-  let flags := if is_some (b_DefaultTimestamp m) then QueryFlag_Add flags QueryFlagDefaultTimestamp else flags in
-  let flags := if nonempty (b_Keyspace m) then QueryFlag_Add flags QueryFlagWithKeyspace else flags in
-  let flags := if is_some (b_NowInSeconds m) then QueryFlag_Add flags QueryFlagNowInSeconds else flags in
+  let flags := flag_if (is_some (b_SerialConsistency m)) flags QueryFlagSerialConsistency in
+  let flags := flag_if (is_some (b_DefaultTimestamp m)) flags QueryFlagDefaultTimestamp in
+  let flags := flag_if (nonempty (b_Keyspace m)) flags QueryFlagWithKeyspace in
+  let flags := flag_if (is_some (b_NowInSeconds m)) flags QueryFlagNowInSeconds in
   flags.
 
 Definition enc_BatchChild (version : Z) (oc : option BatchChild) : W :=
